@@ -62,6 +62,13 @@ func drawStream(c *sim.Ctx, data []byte) *disk.Stream {
 		s.EOFWithData = true
 		c.Fault("eof_with_data")
 	}
+	if c.Chance(150) {
+		s.ZeroPm = 30 + c.Draw(200)
+		c.Fault("zero_length_reads")
+	}
+	if c.Chance(300) {
+		s.ErrWithData = true // (matters only where a read error is injected)
+	}
 	return s
 }
 
